@@ -102,19 +102,24 @@ fn main() {
             let a: Vec<u64> = args[2..8].iter().map(|x| x.parse().unwrap()).collect();
             println!("{}", cvh::dir::twin_trace(a[0] as usize, a[1] as usize, a[2] as usize, a[3], a[4] as usize, a[5] == 1));
         }
-        "run" => {
-            for case in start..cases {
-                let mut rng = Rng::new(seed.wrapping_mul(1_000_003).wrapping_add(case) ^ 0x4E17);
-                let mut line = cvh::run::gen_case(&mut rng, thorough, case);
-                line["case"] = json!(case); line["gen"] = json!({"seed": seed, "case": case, "thorough": thorough});
-                let mut o = out.lock(); writeln!(o, "{}", line).unwrap();
-            }
-        }
-        "proc" => {
-            for case in start..cases {
-                let mut rng = Rng::new(seed.wrapping_mul(1_000_003).wrapping_add(case) ^ 0x9A0C);
-                let mut line = cvh::proc::gen_case(&mut rng, thorough, case);
-                line["case"] = json!(case); line["gen"] = json!({"seed": seed, "case": case, "thorough": thorough});
+        "run" | "proc" => {
+            // replay: lines carry their generator coordinates
+            let list: Vec<(u64, u64, bool)> = match arg(&args, "--replay") {
+                Some(p) => std::fs::read_to_string(p).unwrap().lines().filter(|l| !l.trim().is_empty()).map(|l| {
+                    let j: serde_json::Value = serde_json::from_str(l).unwrap();
+                    (j["gen"]["seed"].as_u64().unwrap_or(seed), j["gen"]["case"].as_u64().unwrap_or(0), j["gen"]["thorough"].as_bool().unwrap_or(false))
+                }).collect(),
+                None => (start..cases).map(|c| (seed, c, thorough)).collect(),
+            };
+            for (s, case, th) in list {
+                let mut line = if cmd == "run" {
+                    let mut rng = Rng::new(s.wrapping_mul(1_000_003).wrapping_add(case) ^ 0x4E17);
+                    cvh::run::gen_case(&mut rng, th, case)
+                } else {
+                    let mut rng = Rng::new(s.wrapping_mul(1_000_003).wrapping_add(case) ^ 0x9A0C);
+                    cvh::proc::gen_case(&mut rng, th, case)
+                };
+                line["case"] = json!(case); line["gen"] = json!({"seed": s, "case": case, "thorough": th});
                 let mut o = out.lock(); writeln!(o, "{}", line).unwrap();
             }
         }
